@@ -19,6 +19,29 @@ def _rel(ctx, mon, got, want, scale, detail):
     ctx.close(mon, float(np.linalg.norm(np.asarray(got) - np.asarray(want))), TOL * max(scale, 1e-300), '', detail)
 
 
+def site_edit_probe(ctx, tag, obj, is_mpo, rng, scale, detail):
+    """History: ONE site tensor of a freshly returned object is edited in place; the dense form must change at that site only
+    (reference: independent copies of the tensors with the same edit) -- site tensors of a result must not be one shared array."""
+    L = len(obj.A)
+    if L == 0 or any(not a.flags.writeable for a in obj.A):
+        ctx.skip(f'{tag}.site-edit-stays-local')
+        return
+    copies = [np.array(a, copy=True) for a in obj.A]
+    i = int(rng.integers(0, L))
+    c = 3 if np.issubdtype(obj.A[i].dtype, np.integer) else 2.5
+    obj.A[i] *= c
+    copies[i] = copies[i] * c
+    nz = np.argwhere(copies[i] != 0)
+    if len(nz) and rng.random() < 0.5:
+        j = tuple(nz[int(rng.integers(0, len(nz)))])
+        obj.A[i][j] += 1
+        copies[i][j] += 1
+    want = refs.dense_operator(copies) if is_mpo else refs.dense_state(copies)
+    got = obj.as_matrix() if is_mpo else obj.as_vector()
+    ctx.close(f'{tag}.site-edit-stays-local', float(np.linalg.norm(np.asarray(got) - want)), TOL * max(4 * scale + float(np.linalg.norm(want)), 1e-300),
+              f'after an in-place edit of site {i} of the result, its dense form differs from (copies of its tensors with the same edit)', dict(detail or {}, edited_site=i))
+
+
 def _pair_mps(rng, L, d, layout):
     qd = _qd(rng, d, layout)
     p0 = str(rng.choice(['one', 'random', 'max', 'over']))
@@ -65,6 +88,8 @@ def mps_sum(ctx, idx, rng):
     import pytenet.mps as pm
     r2 = pm.add_mps(a, b, alpha=alpha)
     _rel(ctx, 'add_mps.alpha', refs.dense_state(r2.A), va + alpha * vb, ts(a) + abs(alpha) * ts(b), detail)
+    if refs.mps_invariant(r2) is None and idx % 4 == 1:
+        site_edit_probe(ctx, 'mps-sum', r2, False, rng, ts(a) + abs(alpha) * ts(b), detail)
 
 
 def mpo_arith(ctx, idx, rng):
@@ -112,6 +137,8 @@ def mpo_arith(ctx, idx, rng):
         ctx.ok('as_matrix.sparse-type', sparse.issparse(sm), f'sparse_format=True returned {type(sm).__name__}', detail)
         if sparse.issparse(sm):
             _rel(ctx, 'as_matrix.sparse==dense', sm.toarray(), dm, sc, detail)
+    if inv is None and idx % 2 == 1 and rng.random() < 0.5:
+        site_edit_probe(ctx, f'mpo-{op}', r, True, rng, sc, detail)
     if inv is None and idx % 2 == 0:
         # history: the same object is edited IN PLACE between two requests (a result cached by object identity would be stale)
         i = int(rng.integers(0, L))
@@ -168,6 +195,8 @@ def apply_case(ctx, idx, rng):
         ctx.ok('apply.bond-dims-multiply', r.bond_dims == [x * y for x, y in zip(H.bond_dims, a.bond_dims)], 'bond dims must multiply', detail)
     if refs.mps_invariant(chain) is None:
         _rel(ctx, 'apply.chained-expression', refs.dense_state(chain.A), mH @ (va - vb), sc, detail)
+    if inv is None and idx % 3 == 0:
+        site_edit_probe(ctx, 'apply', r, False, rng, sc, detail)
 
 
 def identity_case(ctx, idx, rng):
@@ -195,6 +224,7 @@ def identity_case(ctx, idx, rng):
             _rel(ctx, 'identity.dense', M, c * np.identity(d ** L), abs(c) * np.sqrt(d ** L), detail)
             ctx.ok('identity.scale-factor', min(abs(c - scale ** L), abs(c - scale)) <= 1e-12 * abs(c), f'factor {c} is neither scale nor scale^L', detail)
         ctx.ok('identity.bond-dims-one', op.bond_dims == [1] * (L + 1), 'identity MPO must have bond dimension 1', detail)
+        site_edit_probe(ctx, 'identity', op, True, rng, abs(M[0, 0]) * np.sqrt(d ** L), detail)
 
 
 def from_vector_case(ctx, idx, rng):
@@ -233,6 +263,8 @@ def from_vector_case(ctx, idx, rng):
     if inv is None:
         _rel(ctx, 'from_vector.tol0-reproduces', refs.dense_state(psi.A), v0, np.linalg.norm(v0), detail)
         ctx.ok('from_vector.bond-dims', all(D <= min(d ** i, d ** (L - i)) for i, D in enumerate(psi.bond_dims)), f'bond dims {psi.bond_dims} exceed the Schmidt bound', detail)
+        if idx % 3 == 0:
+            site_edit_probe(ctx, 'from_vector', psi, False, rng, float(np.linalg.norm(v0)), detail)
 
 
 def merge_split_case(ctx, idx, rng):
